@@ -52,7 +52,8 @@ REQUIRED = {'timers_armed': 500, 'timers_fired_on_time': 200, 'timers_cancelled_
             'rejected_timed_events': 30, 'zero_duration_chains': 50, 'inf_duration_states': 30,
             'event_duration_override': 50, 'instance_duration_override': 50,
             'stop_with_pending_timer': 50, 'no_duration_errors': 5, 'timer_block_cases': 100,
-            'inputexp_cases': 100, 'get_state_expiry_checked': 500}
+            'inputexp_cases': 100, 'get_state_expiry_checked': 500,
+            'entry_action_chained_out_of_timed_state': 20, 'failed_start_cases': 20}
 SHARDS = {'quick': 16, 'thorough': 16}
 TIMEOUT = {'quick': 300, 'thorough': 3000}
 
@@ -173,6 +174,19 @@ class TModel:
         for _ in range(3 * self.nstates):
             self.state = new
             rec['cbs'].append(('enter', new))
+            chain_ev = self.spec.get('enter_chain', {}).get(new)
+            if chain_ev is not None and data.get('chain'):
+                # the entry action requests a chained transition: if it is accepted the state
+                # is only an intermediate one and its timer must not be started at all
+                rec['chain'].append(chain_ev)
+                nxt = self.lookup(chain_ev)
+                if nxt is None:
+                    rec['notrans'].append((chain_ev, self.state))
+                elif isinstance(chain_ev, list) or not self.initialized or self.cond(chain_ev, {}):
+                    rec['cbs'].append(('exit', new))
+                    rec['chained_from_timed'] = new in self.timed
+                    new, data = nxt, {}
+                    continue
             if new in self.timed:
                 dur, src = self.duration(new, data)
                 rec['dursrc'].append(src)
@@ -232,7 +246,12 @@ def build_block(edzed, spec, hist, probes):
         'EVENTS': tuple((e, f, t) for e, f, t in spec['events']),
     }
     for st in spec['watch']:
-        ns[f"enter_{st}"] = lambda self, st=st: hist.log('cb', 'enter', st)
+        def enter(self, st=st):
+            hist.log('cb', 'enter', st)
+            chain_ev = spec.get('enter_chain', {}).get(st)
+            if chain_ev is not None and edzed.fsm_event_data.get().get('chain'):
+                self.event(edzed.Goto(chain_ev[1]) if isinstance(chain_ev, list) else chain_ev)
+        ns[f"enter_{st}"] = enter
         ns[f"exit_{st}"] = lambda self, st=st: hist.log('cb', 'exit', st)
     calls = {}
     for ev, mode in spec.get('cond', {}).items():
@@ -266,6 +285,24 @@ def run_case(case, ctx):
                 else:
                     hist.log('sev', etype, data.get('state'), data.get('value'))
         probes = Probes('probes')
+        if case.get('failed_start'):
+            # start-up fails after an output block with stop_data was started and before the
+            # FSM is started: the clean-up delivers stop_data, its on_success event drives the
+            # never started FSM into a timed state - no timer may survive the simulation
+            ev, data = case['failed_start']
+            edzed.OutputFunc('of', func=lambda *a: real_dur(data.get('duration', 1.0)),
+                             f_args=(), stop_data={'x': 1}, on_error=None,
+                             on_success=edzed.Event('fsm', ev, efilter=lambda d: {
+                                 k: real_dur(v) for k, v in data.items()}))
+
+            class BadStart(edzed.SBlock):
+                def init_regular(self):
+                    self.set_output(0)
+
+                def start(self):
+                    super().start()
+                    raise RuntimeError('start fault')
+            BadStart('bad')
         fsm = build_block(edzed, spec, hist, probes)
         orig = fsm.event
 
@@ -375,7 +412,8 @@ def run_case(case, ctx):
             loop.latency = lambda: rng.random() * lat
 
     try:
-        out = harness.run_sim(build, drive, drain=86400.0, setup=setup)
+        out = harness.run_sim(build, drive, setup=setup,
+                              drain=30.0 if case.get('failed_start') else 86400.0)
     finally:
         vclock.uninstall()
     loop = out['loop']
@@ -400,6 +438,16 @@ def judge(case, hist, state, ctx):
     where = f"spec={ {k: v for k, v in spec.items() if k != 'watch'} } stims={case['stims']} tail={case.get('tail')}"
     if state['exc'] is not None:
         raise core.Violation('harness-run-exception', f"{where}: {state['exc']!r}")
+    if case.get('failed_start'):
+        if state['started']:
+            raise core.Inconclusive("C04: the failing start() did not fail the start-up")
+        ctx.count('failed_start_cases')
+        if state['own_after_stop'] or state['live_after_stop']:
+            raise core.Violation(
+                'timer-pending-after-stop',
+                f"{where}: start-up failed, an event of the clean-up reached the never started "
+                f"block; timers left after the end: {state['own_after_stop']} {state['live_after_stop']}")
+        return True
     model = TModel(spec)
     E = hist.entries
     nontrivial = False
@@ -496,6 +544,8 @@ def judge(case, hist, state, ctx):
             ctx.count('rejected_timed_events')
         if rec['chain']:
             ctx.count('zero_duration_chains')
+        if rec.get('chained_from_timed'):
+            ctx.count('entry_action_chained_out_of_timed_state')
         if rec.get('inf'):
             ctx.count('inf_duration_states')
         if 'event' in rec['dursrc']:
@@ -646,6 +696,10 @@ def random_generic(rng):
     spec = {'kind': 'generic', 'states': untimed, 'timers': timers, 'events': events,
             'cond': cond, 'inst': inst, 'watch': allst,
             'initdef': rng.choice([None, None, 'A', 'T1'])}
+    if rng.random() < 0.3:
+        # entry action of a (timed) state that chains another transition on request
+        st = rng.choice(timed + timed + untimed)
+        spec['enter_chain'] = {st: rng.choice(['back', 'go1', ['goto', rng.choice(allst)]])}
     evnames = sorted({e for e, _f, _t in events}) + ['bogus']
     stims = []
     for _ in range(rng.randint(1, 5)):
@@ -656,6 +710,8 @@ def random_generic(rng):
         d = rng.choice(EV_DURS)
         if d is not None:
             data['duration'] = d
+        if 'enter_chain' in spec and rng.random() < 0.5:
+            data['chain'] = True
         stims.append([rng.choice(AIMS), ev, data])
     return spec, stims
 
@@ -734,6 +790,10 @@ def gen(ctx):
             spec, stims = random_inputexp(rng)
         case = {'spec': spec, 'stims': stims,
                 'tail': rng.choice(['after', 'pending', 'pending', 'long'])}
+        if rng.random() < 0.04:
+            ev = {'generic': 'go1', 'timer': 'start', 'inputexp': 'put'}[spec['kind']]
+            case['failed_start'] = [ev, {'duration': rng.choice([0.5, 3.0, '0m2s']), 'value': 'x'}]
+            case['stims'] = []
         if not quick and rng.random() < 0.2 or quick and rng.random() < 0.1:
             case['latency'] = rng.choice([1e-4, 2e-3])
         yield case
